@@ -41,6 +41,12 @@ def strip_msg(m):
     return m
 
 
+def strip_for(r):
+    """Like strip_msg, but an unused *inline* provider set (which has no name to print) is identified by the
+    position of its wire.NewSet call in the rendered injector file."""
+    return strip_msg
+
+
 def flatten_fn(fn):
     lines = ["SIG %s(%s) -> %s" % (fn["name"], ", ".join(fn["params"] or []), ", ".join(fn["results"] or []))]
 
@@ -153,7 +159,7 @@ def case_term(i, p, r, o):
         obs = "(GOOk %s %s)" % (coq_list([coq_str(x) for x in lines]), coq_list([coq_str(x) for x in imports]))
         kind = ("ok", len(lines))
     else:
-        ds = synth.parse_errors(tree, o["errors"], parse_t=ptid_for(r), strip=strip_msg)
+        ds = synth.parse_errors(tree, o["errors"], parse_t=ptid_for(r), strip=strip_for(r))
         stage = "StSet"
         if not ds:
             ds = [("DUnparsed", 0)]
@@ -163,7 +169,8 @@ def case_term(i, p, r, o):
             stage = "StInject"
         obs = "(GOErr %s %s)" % (stage, coq_list([synth.r_diag(d) for d in ds]))
         kind = (stage, ds)
-    return "(mkGCase %d %s %s %s %s %s %s)" % (i, env, synth.r_nats(order), r_set_pkg(tree, r), inj, coq_list(vals), obs), kind
+    anon = [x["id"] for x in tree["imports"] if x.get("inline")]
+    return "(mkGCase %d %s %s %s %s %s %s %s)" % (i, env, synth.r_nats(order), r_set_pkg(tree, r), inj, coq_list(vals), synth.r_nats(anon), obs), kind
 
 
 HEADER = ("From Coq Require Import List String.\nFrom Wire Require Import Sets Front Model Names Emit Bridge.\n"
